@@ -66,6 +66,7 @@ type frame struct {
 	defers    *deferred
 	result    Value
 	panicking bool
+	goexit    bool
 	panicVal  interface{} // targetPanic
 	phitemps  []Value
 	isPkgInit bool
@@ -366,6 +367,12 @@ func (fr *frame) run() {
 			return // normal return
 		}
 		r := recover()
+		if _, ge := r.(goexitUnwind); ge {
+			fr.goexit = true
+			fr.panicking = false
+			st.curFn = fr.fn.String()
+			fr.runDefers() // re-raises goexitUnwind when done
+		}
 		tp, ok := r.(targetPanic)
 		if !ok {
 			switch r.(type) {
@@ -457,6 +464,9 @@ func (fr *frame) runDefers() {
 		fr.defers = d.tail
 		fr.runDefer(d)
 	}
+	if fr.goexit {
+		panic(goexitUnwind{})
+	}
 	if fr.panicking {
 		panic(fr.panicVal)
 	}
@@ -470,6 +480,10 @@ func (fr *frame) runDefer(d *deferred) {
 			if tp, isTP := r.(targetPanic); isTP {
 				fr.panicking = true
 				fr.panicVal = tp
+			} else if _, isGE := r.(goexitUnwind); isGE {
+				// runtime.Goexit in a deferred call: the remaining deferred calls still run
+				fr.goexit = true
+				fr.panicking = false
 			} else {
 				panic(r)
 			}
